@@ -71,6 +71,25 @@ def _external(cmd, text, timeout_s):
         os.unlink(path)
 
 
+class TooManyApps(Exception):
+    pass
+
+
+def hard_check(s, timeout_ms, *assumptions):
+    """solver.check with a watchdog: some z3 tactics ignore the soft timeout"""
+    import threading
+    ctx = s.ctx
+    timer = threading.Timer(timeout_ms / 1000.0 + 2.0, ctx.interrupt)
+    timer.daemon = True
+    timer.start()
+    try:
+        return s.check(*assumptions)
+    except z3.Z3Exception:
+        return z3.unknown
+    finally:
+        timer.cancel()
+
+
 def ackermannize(fs):
     """Replace uninterpreted applications by fresh constants + congruence constraints (equisatisfiable)."""
     apps = {}
@@ -90,6 +109,8 @@ def ackermannize(fs):
         walk(f)
     if not apps:
         return list(fs), []
+    if sum(len(d) for d in apps.values()) > 40:
+        raise TooManyApps()
     subs = []
     extra = []
     for name, d in sorted(apps.items()):
@@ -111,13 +132,77 @@ def ackermannize(fs):
     return [sub(f) for f in fs] + [sub(e) for e in extra], subs
 
 
+_NL_CACHE = {}
+
+
+def _nonlinear_nodes(f):
+    """nonlinear multiplications / divisions in a formula (cached per formula)"""
+    fid = f.get_id()
+    hit = _NL_CACHE.get(fid)
+    if hit is not None:
+        return hit[1]
+    out = {}
+    seen = set()
+    stack = [f]
+    while stack:
+        e = stack.pop()
+        eid = e.get_id()
+        if eid in seen:
+            continue
+        seen.add(eid)
+        if not z3.is_app(e):
+            continue
+        k = e.decl().kind()
+        n = e.num_args()
+        if k == z3.Z3_OP_MUL:
+            nonnum = 0
+            for i in range(n):
+                a = e.arg(i)
+                if not (z3.is_rational_value(a) or z3.is_int_value(a)):
+                    nonnum += 1
+            if nonnum >= 2:
+                out[eid] = e
+        elif k == z3.Z3_OP_DIV and n == 2:
+            b = e.arg(1)
+            if not (z3.is_rational_value(b) or z3.is_int_value(b)):
+                out[eid] = e
+        for i in range(n):
+            stack.append(e.arg(i))
+    res = list(out.values())
+    if len(_NL_CACHE) > 20000:
+        _NL_CACHE.clear()
+    _NL_CACHE[fid] = (f, res)
+    return res
+
+
+def _linear_abstraction(pc, g, timeout_ms):
+    """Sound for proving: every nonlinear product/quotient becomes an opaque constant (identical terms share it).
+    Discharges the obligations that follow by matching hypotheses (most frame/invariant VCs) very quickly."""
+    nodes = {}
+    for f in list(pc) + [g]:
+        for e in _nonlinear_nodes(f):
+            nodes[e.get_id()] = e
+    if not nodes:
+        return None
+    subs = [(e, z3.Real(f"nl!{k}")) for k, e in enumerate(nodes.values())]
+    s = z3.Solver()
+    s.set("timeout", timeout_ms)
+    s.add(z3.substitute(z3.And(*pc, z3.Not(g)), *subs))
+    if hard_check(s, timeout_ms) == z3.unsat:
+        return dict(status="discharged", backend="z3-5.1(linear-abstraction)", model=None)
+    return None
+
+
 def _nlsat(pc, g, inputs, timeout_ms):
-    fs, subs = ackermannize(list(pc) + [z3.Not(g)])
+    try:
+        fs, subs = ackermannize(list(pc) + [z3.Not(g)])
+    except TooManyApps:
+        return None
     try:
         s = z3.Then(z3.Tactic("simplify"), z3.Tactic("purify-arith"), z3.Tactic("qfnra-nlsat")).solver()
         s.set("timeout", timeout_ms)
         s.add(*fs)
-        r = s.check()
+        r = hard_check(s, timeout_ms)
     except z3.Z3Exception:
         return None
     if r == z3.unsat:
@@ -144,25 +229,30 @@ def discharge(pc, goal, inputs, timeout_ms=10000, fallbacks=True):
     g = z3.simplify(goal)
     if z3.is_true(g):
         return dict(status="discharged", backend="z3-simplify", time_s=time.time() - t0, model=None)
+    if len(pc) > 60:
+        la = _linear_abstraction(pc, g, max(500, timeout_ms // 4))
+        if la is not None:
+            la["time_s"] = time.time() - t0
+            return la
     s = z3.Solver()
     s.set("timeout", max(500, timeout_ms // 5))
     for p in pc:
         s.add(p)
     s.add(z3.Not(g))
-    r = s.check()
+    r = hard_check(s, max(500, timeout_ms // 5))
     if r == z3.unknown:
         nl = _nlsat(pc, g, inputs, timeout_ms)
         if nl is not None:
             nl["time_s"] = time.time() - t0
             return nl
         s.set("timeout", timeout_ms)
-        r = s.check()
+        r = hard_check(s, timeout_ms)
     if r == z3.unsat:
         return dict(status="discharged", backend="z3-5.1(api)", time_s=time.time() - t0, model=None)
     if r == z3.sat:
         return dict(status="refuted", backend="z3-5.1(api)", time_s=time.time() - t0,
                     model=model_dict(s.model(), inputs))
-    if fallbacks:
+    if fallbacks and not os.environ.get('PYCV_NO_FALLBACK'):
         text = _smtlib(pc, g)
         to_s = max(1, timeout_ms // 1000)
         for name, cmd in (("cvc5-1.0.3", ["/usr/bin/cvc5", f"--tlimit={timeout_ms}", "--nl-ext-tplanes"]),
